@@ -191,12 +191,14 @@ Lemma draw_gate e s o t pd x s' u :
     get_cp e t = Some cp /\ find_cdp e s o t = Some c0 /\
     c_id c' = c_id c0 /\ c_type c' = c_type c0 /\ c_owner c' = c_owner c0 /\ c_coll c' = c_coll c0 /\
     c_prin c' = c_prin c0 + x /\ 0 < x /\
+    mstat s (cp_spot cp) = true /\ mstat s (cp_liqm cp) = true /\
     cdps s' (c_type c') (c_id c') = Some c' /\ price s' = price s /\
     ratio_at e cp (price s' (cp_spot cp)) (c_coll c') (c_prin c') (c_fees c') = Ok tt r /\ cp_liq cp <= r.
 Proof.
   unfold draw. destruct (Z.ltb_spec 0 x) as [Hx|]; [|discriminate]. cbn [negb].
   destruct (find_cdp e s o t) as [c0|] eqn:Ef; [|discriminate].
   destruct (get_cp e t) as [cp|] eqn:Ecp; [|discriminate].
+  destruct (mstat s (cp_spot cp) && mstat s (cp_liqm cp)) eqn:Em; [|discriminate]. cbn [negb].
   destruct (Nat.eqb pd (d_usdx e)); [|discriminate]. cbn [negb].
   destruct (debt_limit_ok e s t cp x); [|discriminate]. cbn [negb].
   destruct (sync_interest e s cp c0) as [s1 c| |] eqn:Es; try discriminate.
@@ -215,6 +217,7 @@ Proof.
     rewrite (bank_only_price _ _ (b_mint_frame s1 (CDPM e) (d_usdx e) x)).
     destruct Henv as (P1 & _). exact P1. }
   cbn [with_prin c_id c_type c_owner c_coll c_prin c_fees] in *.
+  apply andb_true_iff in Em. destruct Em as [Em1 Em2].
   repeat split; try assumption; try congruence.
   rewrite Hp. destruct Henv as (P1 & _). rewrite <- P1. exact Hr.
 Qed.
@@ -579,29 +582,34 @@ Proof.
   destruct H as [<-|H]; [left; reflexivity|right]. eapply IH; eassumption.
 Qed.
 
-Lemma seize_fold_none e cp : forall l s s' u,
-  ofold (fun s1 (o : option cdp) => match o with Some c => seize e s1 cp c | None => Panic end) s l = Ok s' u ->
+Lemma seize_fold_none e cp p : forall l s s' u,
+  ofold (liq_step e cp p) s l = Ok s' u ->
   (forall t id, cdps s t id = None -> cdps s' t id = None) /\
-  (forall c, In (Some c) l -> cdps s' (c_type c) (c_id c) = None).
+  (forall c, In (Some c) l -> confirm_below e cp p c = true -> cdps s' (c_type c) (c_id c) = None).
 Proof.
   induction l as [|o tl IH]; intros s s' u H; cbn [ofold] in H.
   - inversion H; subst. split; [auto|intros c []].
-  - destruct o as [c|]; [|discriminate].
-    destruct (seize e s cp c) as [s1 []| |] eqn:E; try discriminate.
-    apply seize_cdps in E. apply IH in H. destruct H as [Hk Hin].
-    assert (Hk1 : forall t id, cdps s t id = None -> cdps s1 t id = None).
-    { intros t id Hn. rewrite E. unfold upd2. destruct (_ && _); [reflexivity|assumption]. }
-    split; [intros t id Hn; apply Hk, Hk1, Hn|].
-    intros c' [Heq|Hc'].
-    + inversion Heq; subst. apply Hk. rewrite E. unfold upd2. rewrite !Nat.eqb_refl. reflexivity.
-    + apply Hin, Hc'.
+  - destruct o as [c|]; [|discriminate]. unfold liq_step in H at 1.
+    destruct (confirm_below e cp p c) eqn:Ecb.
+    + destruct (seize e s cp c) as [s1 []| |] eqn:E; try discriminate.
+      apply seize_cdps in E. apply IH in H. destruct H as [Hk Hin].
+      assert (Hk1 : forall t id, cdps s t id = None -> cdps s1 t id = None).
+      { intros t id Hn. rewrite E. unfold upd2. destruct (_ && _); [reflexivity|assumption]. }
+      split; [intros t id Hn; apply Hk, Hk1, Hn|].
+      intros c' [Heq|Hc'] Hcb.
+      * inversion Heq; subst. apply Hk. rewrite E. unfold upd2. rewrite !Nat.eqb_refl. reflexivity.
+      * apply Hin; assumption.
+    + cbv beta iota in H. apply IH in H. destruct H as [Hk Hin]. split; [exact Hk|].
+      intros c' [Heq|Hc'] Hcb; [inversion Heq; subst; congruence|apply Hin; assumption].
 Qed.
 
-(* LiquidateCdps: every cdp read from the scan of the ratio index is seized *)
+(* LiquidateCdps: every cdp read from the scan of the ratio index whose value ratio is confirmed below the
+   liquidation ratio is seized *)
 Lemma liquidate_cdps_complete e s t cp s' u :
   liquidate_cdps e s t cp = Ok s' u -> price s (cp_liqm cp) <> 0 ->
   forall x, In x (idx_below (rkey (liq_cut (price s (cp_liqm cp)) (cp_liq cp))) (scan_count cp) (ridx s t)) ->
-  exists c, get_cdp e s t (snd x) = Some c /\ cdps s' (c_type c) (c_id c) = None.
+  exists c, get_cdp e s t (snd x) = Some c /\
+    (confirm_below e cp (price s (cp_liqm cp)) c = true -> cdps s' (c_type c) (c_id c) = None).
 Proof.
   unfold liquidate_cdps. intros H Hp x Hx.
   destruct (Z.eqb_spec (price s (cp_liqm cp)) 0); [contradiction|].
@@ -618,37 +626,61 @@ Proof.
     congruence.
 Qed.
 
-(* LiquidateCdps touches no cdp outside the scan *)
+(* LiquidateCdps touches only cdps read from the scan AND confirmed below the liquidation ratio *)
 Lemma liquidate_cdps_only_scanned e s t cp s' u :
   liquidate_cdps e s t cp = Ok s' u ->
   forall t' id, cdps s' t' id <> cdps s t' id ->
   exists x c, In x (idx_below (rkey (liq_cut (price s (cp_liqm cp)) (cp_liq cp))) (scan_count cp) (ridx s t)) /\
     fst x < rkey (liq_cut (price s (cp_liqm cp)) (cp_liq cp)) /\
-    get_cdp e s t (snd x) = Some c /\ t' = c_type c /\ id = c_id c.
+    get_cdp e s t (snd x) = Some c /\ t' = c_type c /\ id = c_id c /\
+    price s (cp_liqm cp) <> 0 /\ confirm_below e cp (price s (cp_liqm cp)) c = true.
 Proof.
   unfold liquidate_cdps. intros H t' id Hne.
-  destruct (Z.eqb_spec (price s (cp_liqm cp)) 0); [inversion H; subst; contradiction|].
+  destruct (Z.eqb_spec (price s (cp_liqm cp)) 0) as [|Hp]; [inversion H; subst; contradiction|].
   destruct (existsb _ _); [discriminate|].
-  set (ents := idx_below _ _ _) in *.
+  set (ents := idx_below _ _ _) in *. set (p := price s (cp_liqm cp)) in *.
   assert (G : forall l s0 s1 u0,
-    ofold (fun s1 (o : option cdp) => match o with Some c => seize e s1 cp c | None => Panic end) s0 l = Ok s1 u0 ->
-    cdps s1 t' id <> cdps s0 t' id -> exists c, In (Some c) l /\ t' = c_type c /\ id = c_id c).
+    ofold (liq_step e cp p) s0 l = Ok s1 u0 ->
+    cdps s1 t' id <> cdps s0 t' id -> exists c, In (Some c) l /\ t' = c_type c /\ id = c_id c /\ confirm_below e cp p c = true).
   { induction l as [|o tl IH]; intros s0 s1 u0 H0 Hn; cbn [ofold] in H0.
     - inversion H0; subst. contradiction.
-    - destruct o as [c|]; [|discriminate].
-      destruct (seize e s0 cp c) as [s2 []| |] eqn:E; try discriminate.
-      apply seize_cdps in E.
-      destruct (Nat.eqb_spec t' (c_type c)) as [->|N1]; [destruct (Nat.eqb_spec id (c_id c)) as [->|N2]|].
-      + exists c. split; [left; reflexivity|split; reflexivity].
-      + assert (cdps s2 (c_type c) id = cdps s0 (c_type c) id).
-        { rewrite E. unfold upd2. destruct (Nat.eqb_spec id (c_id c)); [contradiction|]. rewrite andb_false_r. reflexivity. }
-        destruct (IH _ _ _ H0) as (c' & Hin & Hc'); [congruence|]. exists c'. split; [right; assumption|assumption].
-      + assert (cdps s2 t' id = cdps s0 t' id).
-        { rewrite E. unfold upd2. destruct (Nat.eqb_spec t' (c_type c)); [contradiction|]. reflexivity. }
-        destruct (IH _ _ _ H0) as (c' & Hin & Hc'); [congruence|]. exists c'. split; [right; assumption|assumption]. }
-  destruct (G _ _ _ _ H Hne) as (c & Hin & -> & ->).
+    - destruct o as [c|]; [|discriminate]. unfold liq_step in H0 at 1.
+      destruct (confirm_below e cp p c) eqn:Ecb.
+      + destruct (seize e s0 cp c) as [s2 []| |] eqn:E; try discriminate.
+        apply seize_cdps in E.
+        destruct (Nat.eqb_spec t' (c_type c)) as [->|N1]; [destruct (Nat.eqb_spec id (c_id c)) as [->|N2]|].
+        * exists c. split; [left; reflexivity|repeat split; assumption].
+        * assert (cdps s2 (c_type c) id = cdps s0 (c_type c) id).
+          { rewrite E. unfold upd2. destruct (Nat.eqb_spec id (c_id c)); [contradiction|]. rewrite andb_false_r. reflexivity. }
+          destruct (IH _ _ _ H0) as (c' & Hin & Hc'); [congruence|]. exists c'. split; [right; assumption|assumption].
+        * assert (cdps s2 t' id = cdps s0 t' id).
+          { rewrite E. unfold upd2. destruct (Nat.eqb_spec t' (c_type c)); [contradiction|]. reflexivity. }
+          destruct (IH _ _ _ H0) as (c' & Hin & Hc'); [congruence|]. exists c'. split; [right; assumption|assumption].
+      + cbv beta iota in H0. destruct (IH _ _ _ H0 Hn) as (c' & Hin & Hc'). exists c'. split; [right; assumption|assumption]. }
+  destruct (G _ _ _ _ H Hne) as (c & Hin & -> & -> & Hcb).
   apply in_map_iff in Hin. destruct Hin as (x & Hx & Hxin).
   exists x, c. repeat split; try assumption. eapply idx_below_lt. exact Hxin.
+Qed.
+
+(* the confirmation is the value ratio of CalculateCollateralizationRatio at the liquidation price *)
+Lemma to_base_zero cf : to_base 0 cf = 0.
+Proof. unfold to_base, dec_mul, dec_of_int. cbn [Z.mul]. reflexivity. Qed.
+
+Lemma confirm_below_ratio e cp p c r :
+  confirm_below e cp p c = true -> 0 < to_base (c_prin c) (dp_cf e) + to_base (c_fees c) (dp_cf e) ->
+  ratio_at e cp p (c_coll c) (c_prin c) (c_fees c) = Ok tt r -> r < cp_liq cp.
+Proof.
+  unfold confirm_below, ratio_at, coll_ratio. intros H Hd.
+  destruct (Z.ltb_spec 0 (to_base (c_prin c) (dp_cf e) + to_base (c_fees c) (dp_cf e))); [|lia].
+  apply Z.ltb_lt in H.
+  destruct (Z.eqb_spec (c_coll c) 0) as [E0|].
+  - intros Hr; inversion Hr; subst. rewrite E0, to_base_zero in H. 
+    assert (Hz : dec_quo (dec_mul 0 p) (to_base (c_prin c) (dp_cf e) + to_base (c_fees c) (dp_cf e)) = 0).
+    { unfold dec_mul. cbn [Z.mul]. unfold dec_quo. cbn [Z.mul]. rewrite Z.quot_0_l by lia. reflexivity. }
+    lia.
+  - destruct (p =? 0); [discriminate|].
+    destruct (Z.eqb_spec (to_base (c_prin c) (dp_cf e) + to_base (c_fees c) (dp_cf e)) 0); [lia|].
+    intros Hr; inversion Hr; subst. exact H.
 Qed.
 
 (* Only-below with explicit slack: an index entry below the cut, for a cdp whose
